@@ -9,24 +9,19 @@ import (
 
 // tarfs.go (C05): the tar-stream input leg and the GNU-tar output leg are field mappings between
 // archive/tar headers and desync's File / Node* values.  Extracted: for every Create* method the
-// (header field, source expression) pairs of the composite literal it hands to WriteHeader, for
-// TarReader.Next the (File field, source expression) pairs, the statements around them (where `typ`,
-// `info` and `h` come from, assignments to the header after the literal, the calls made), the body of
-// the helper tarMode and whether anything calls it, the format NewTarWriter asks for and the root entry
-// NewTarReader prepares.  Model/TarFS.lean states the mapping it assumes; gen_tarfs_* compare.
+// (header field, source expression) pairs of the composite literal it hands to WriteHeader, whether the
+// header is touched again after the literal, the calls that involve the archive/tar writer, the rule that
+// picks the device type flag; for TarReader.Next the (File field, source expression) pairs and its
+// statements; the body of the helper tarMode and who calls it; the format NewTarWriter asks for and the
+// root entry NewTarReader prepares.  Model/TarFS.lean states the mapping it assumes; gen_tarfs_* compare.
+//
+// Names are normalised first, so that renaming a receiver, a parameter or a local changes nothing: the
+// receiver is "fs", the node parameter "n", the header variable "hdr", the variable the header of the
+// stream is read into "h", the one holding h.FileInfo() "info", the File under construction "f", the
+// variable of the device type flag "typ".  A local that is defined once by `x := expr` and is none of
+// these is replaced by its definition inside the field expressions.
 func (c *ctx) tarfsFacts() {
 	c.lean.WriteString("\n/-! tarfs.go: archive/tar header <-> File / Node* field mappings (C05) -/\n")
-	pairsOf := func(lit *ast.CompositeLit) [][2]string {
-		var out [][2]string
-		for _, el := range lit.Elts {
-			if kv, ok := el.(*ast.KeyValueExpr); ok {
-				out = append(out, [2]string{exprString(kv.Key), exprString(kv.Value)})
-			} else {
-				out = append(out, [2]string{"", exprString(el)})
-			}
-		}
-		return out
-	}
 	emitPairs := func(name, doc string, ps [][2]string) {
 		q := make([]string, len(ps))
 		for i, p := range ps {
@@ -35,157 +30,94 @@ func (c *ctx) tarfsFacts() {
 		fmt.Fprintf(&c.lean, "/-- %s -/\ndef %s : List (String × String) := [%s]\n", doc, name, strings.Join(q, ", "))
 		c.facts[name] = ps
 	}
-	// the first composite literal of the named type in a function body
-	findLit := func(fd *ast.FuncDecl, typ string) *ast.CompositeLit {
-		var found *ast.CompositeLit
-		if fd == nil {
-			return nil
-		}
-		walk(fd.Body, func(n ast.Node) bool {
-			if lit, ok := n.(*ast.CompositeLit); ok && found == nil && typeName(lit.Type) == typ {
-				found = lit
-			}
-			return found == nil
-		})
-		return found
-	}
-	// everything a function does besides building the literal: local definitions, assignments to fields of
-	// the header, conditionals that assign, calls (method name only), in source order
-	around := func(fd *ast.FuncDecl) []string {
-		var out []string
-		if fd == nil {
-			return out
-		}
-		var visit func(st ast.Stmt, prefix string)
-		visit = func(st ast.Stmt, prefix string) {
-			switch t := st.(type) {
-			case *ast.DeclStmt:
-				if gd, ok := t.Decl.(*ast.GenDecl); ok && gd.Tok == token.VAR {
-					for _, sp := range gd.Specs {
-						vs := sp.(*ast.ValueSpec)
-						for i, n := range vs.Names {
-							v := ""
-							if i < len(vs.Values) {
-								v = exprString(vs.Values[i])
-							}
-							out = append(out, prefix+"var "+n.Name+" "+exprString(vs.Type)+"="+v)
-						}
-					}
-				}
-			case *ast.AssignStmt:
-				if len(t.Rhs) == 1 && len(t.Lhs) > 1 { // `h, err := call()`
-					ls := make([]string, len(t.Lhs))
-					for i, l := range t.Lhs {
-						ls[i] = exprString(l)
-					}
-					out = append(out, prefix+strings.Join(ls, ",")+t.Tok.String()+exprString(t.Rhs[0]))
-					break
-				}
-				for i, l := range t.Lhs {
-					r := ""
-					if len(t.Rhs) == len(t.Lhs) {
-						r = exprString(t.Rhs[i])
-					}
-					if cl := compositeOf(t.Rhs, i); cl != "" {
-						r = cl
-					}
-					out = append(out, prefix+exprString(l)+t.Tok.String()+r)
-				}
-			case *ast.IfStmt:
-				p := prefix + "if " + exprString(t.Cond) + ": "
-				if t.Init != nil {
-					visit(t.Init, prefix)
-				}
-				for _, s := range t.Body.List {
-					visit(s, p)
-				}
-				if t.Else != nil {
-					if b, ok := t.Else.(*ast.BlockStmt); ok {
-						for _, s := range b.List {
-							visit(s, prefix+"else: ")
-						}
-					} else {
-						visit(t.Else.(ast.Stmt), prefix+"else: ")
-					}
-				}
-			case *ast.ReturnStmt:
-				rs := make([]string, len(t.Results))
-				for i, r := range t.Results {
-					rs[i] = exprString(r)
-					if cl, ok := r.(*ast.UnaryExpr); ok {
-						if lit, ok := cl.X.(*ast.CompositeLit); ok {
-							rs[i] = "&" + typeName(lit.Type) + "{…}"
-						}
-					}
-				}
-				out = append(out, prefix+"return "+strings.Join(rs, ","))
-			case *ast.ExprStmt:
-				out = append(out, prefix+exprString(t.X))
-			case *ast.BlockStmt:
-				for _, s := range t.List {
-					visit(s, prefix)
-				}
-			default:
-				out = append(out, prefix+fmt.Sprintf("<%T>", st))
-			}
-		}
-		for _, st := range fd.Body.List {
-			visit(st, "")
-		}
-		return out
+	emitList := func(name, doc string, l []string) {
+		fmt.Fprintf(&c.lean, "/-- %s -/\ndef %s : List String := [%s]\n", doc, name, quoteList(l))
+		c.facts[name] = l
 	}
 	for _, m := range []string{"CreateDir", "CreateFile", "CreateSymlink", "CreateDevice"} {
 		fd := c.funcDecl(c.files, "TarWriter", m)
-		lit := findLit(fd, "gnutar.Header")
+		tarfsNormalise(fd)
+		lit := tarfsFindLit(fd, "gnutar.Header")
 		ok := c.site("tarfs_"+m, fd != nil && lit != nil)
 		var ps [][2]string
+		var calls []string
+		touched := true
 		if ok {
-			ps = pairsOf(lit)
+			ps = tarfsPairs(fd, lit)
+			calls, touched = tarfsWriterUse(fd)
 		} else {
 			fmt.Fprintf(&c.lean, "-- SITE NOT FOUND: tarfs_%s\n", m)
 		}
 		emitPairs("tarfs"+m+"Hdr", "`TarWriter."+m+"`: the fields of the `gnutar.Header` literal and their source expressions", ps)
-		fmt.Fprintf(&c.lean, "/-- `TarWriter.%s`: its statements, the literal abbreviated -/\ndef tarfs%sBody : List String := [%s]\n", m, m, quoteList(around(fd)))
-		c.facts["tarfs"+m+"Body"] = around(fd)
+		emitList("tarfs"+m+"Calls", "`TarWriter."+m+"`: the calls that involve the archive/tar writer `fs.w`, in source order", calls)
+		fmt.Fprintf(&c.lean, "/-- `TarWriter.%s`: a field of the header is assigned after the literal, or the header is handed to something other than `WriteHeader` -/\ndef tarfs%sHdrTouched : Bool := %v\n", m, m, touched)
+		c.facts["tarfs"+m+"HdrTouched"] = touched
+		if m == "CreateDevice" {
+			emitList("tarfsDeviceTypRule", "`TarWriter.CreateDevice`: every statement that gives `typ` a value, with the condition it stands under", tarfsAssignsTo(fd, "typ"))
+		}
 	}
 	// TarReader.Next
 	{
 		fd := c.funcDecl(c.files, "TarReader", "Next")
-		lit := findLit(fd, "File")
+		tarfsNormalise(fd)
+		lit := tarfsFindLit(fd, "File")
 		ok := c.site("tarfs_ReaderNext", fd != nil && lit != nil)
 		var ps [][2]string
 		if ok {
-			ps = pairsOf(lit)
+			ps = tarfsPairs(fd, lit)
 		} else {
 			c.lean.WriteString("-- SITE NOT FOUND: tarfs_ReaderNext\n")
 		}
 		emitPairs("tarfsReaderNextFile", "`TarReader.Next`: the fields of the `File` literal and their source expressions", ps)
-		fmt.Fprintf(&c.lean, "/-- `TarReader.Next`: its statements, the literal abbreviated -/\ndef tarfsReaderNextBody : List String := [%s]\n", quoteList(around(fd)))
-		c.facts["tarfsReaderNextBody"] = around(fd)
+		emitList("tarfsReaderNextBody", "`TarReader.Next`: its statements, the literal abbreviated", tarfsStatements(fd))
 	}
-	// NewTarReader: the root entry and the reader literal
+	// NewTarReader: the root entry
 	{
 		fd := c.funcDecl(c.files, "", "NewTarReader")
-		lit := findLit(fd, "File")
+		lit := tarfsFindLit(fd, "File")
 		ok := c.site("tarfs_NewTarReader", fd != nil && lit != nil)
 		var ps [][2]string
+		var cond []string
 		if ok {
-			ps = pairsOf(lit)
+			ps = tarfsPairs(fd, lit)
+			// the condition(s) the root literal stands under
+			walk(fd.Body, func(n ast.Node) bool {
+				if ifs, isIf := n.(*ast.IfStmt); isIf {
+					inside := false
+					walk(ifs.Body, func(m ast.Node) bool {
+						if m == ast.Node(lit) {
+							inside = true
+						}
+						return true
+					})
+					if inside {
+						cond = append(cond, exprString(ifs.Cond))
+					}
+				}
+				return true
+			})
 		} else {
 			c.lean.WriteString("-- SITE NOT FOUND: tarfs_NewTarReader\n")
 		}
-		emitPairs("tarfsRootFile", "`NewTarReader`: the root entry prepared under `AddRoot`", ps)
-		fmt.Fprintf(&c.lean, "def tarfsNewTarReaderBody : List String := [%s]\n", quoteList(around(fd)))
-		c.facts["tarfsNewTarReaderBody"] = around(fd)
+		emitPairs("tarfsRootFile", "`NewTarReader`: the root entry it prepares", ps)
+		emitList("tarfsRootFileCond", "`NewTarReader`: the conditions the root entry stands under", cond)
 	}
 	// NewTarWriter: what it returns
 	{
 		fd := c.funcDecl(c.files, "", "NewTarWriter")
-		lit := findLit(fd, "TarWriter")
+		lit := tarfsFindLit(fd, "TarWriter")
 		ok := c.site("tarfs_NewTarWriter", fd != nil && lit != nil)
 		var ps [][2]string
 		if ok {
-			ps = pairsOf(lit)
+			ps = tarfsPairs(fd, lit)
+			// positional literal: name the fields after the struct declaration
+			if names := tarfsStructFields(c, "TarWriter"); len(names) == len(ps) {
+				for i := range ps {
+					if ps[i][0] == "" {
+						ps[i][0] = names[i]
+					}
+				}
+			}
 		} else {
 			c.lean.WriteString("-- SITE NOT FOUND: tarfs_NewTarWriter\n")
 		}
@@ -194,13 +126,16 @@ func (c *ctx) tarfsFacts() {
 	// tarMode: its body, and the functions that call it
 	{
 		fd := c.funcDecl(c.files, "", "tarMode")
-		body := around(fd)
+		var body []string
+		if fd != nil && fd.Type.Params != nil && len(fd.Type.Params.List) == 1 && len(fd.Type.Params.List[0].Names) == 1 {
+			tarfsRename(fd, fd.Type.Params.List[0].Names[0], "m")
+		}
+		body = tarfsStatements(fd)
 		c.site("tarfs_tarMode", fd != nil && len(body) > 0)
 		if fd == nil {
 			c.lean.WriteString("-- SITE NOT FOUND: tarfs_tarMode\n")
 		}
-		fmt.Fprintf(&c.lean, "/-- the helper `tarMode` of tarfs.go -/\ndef tarfsTarModeBody : List String := [%s]\n", quoteList(body))
-		c.facts["tarfsTarModeBody"] = body
+		emitList("tarfsTarModeBody", "the helper `tarMode` of tarfs.go", body)
 		var callers []string
 		for _, f := range sortedFiles(c.files) {
 			for _, d := range c.files[f].Decls {
@@ -220,12 +155,349 @@ func (c *ctx) tarfsFacts() {
 				})
 			}
 		}
-		fmt.Fprintf(&c.lean, "/-- the functions of the library that call `tarMode` -/\ndef tarfsTarModeCallers : List String := [%s]\n", quoteList(callers))
-		c.facts["tarfsTarModeCallers"] = callers
+		emitList("tarfsTarModeCallers", "the functions of the library that call `tarMode`", callers)
 	}
 }
 
-// compositeOf abbreviates `&T{…}` / `T{…}` on the right-hand side of an assignment
+// tarfsRename gives every identifier that denotes the same object as decl the name to
+func tarfsRename(fd *ast.FuncDecl, decl *ast.Ident, to string) {
+	if fd == nil || decl == nil || decl.Obj == nil || decl.Name == "_" {
+		return
+	}
+	obj := decl.Obj
+	ast.Inspect(fd, func(n ast.Node) bool {
+		if id, ok := n.(*ast.Ident); ok && id.Obj == obj {
+			id.Name = to
+		}
+		return true
+	})
+}
+
+// tarfsNormalise renames receiver, node parameter and the locals with a fixed role (see tarfsFacts)
+func tarfsNormalise(fd *ast.FuncDecl) {
+	if fd == nil || fd.Body == nil {
+		return
+	}
+	if fd.Recv != nil && len(fd.Recv.List) == 1 && len(fd.Recv.List[0].Names) == 1 {
+		tarfsRename(fd, fd.Recv.List[0].Names[0], "fs")
+	}
+	if fd.Type.Params != nil && len(fd.Type.Params.List) >= 1 && len(fd.Type.Params.List[0].Names) == 1 {
+		tarfsRename(fd, fd.Type.Params.List[0].Names[0], "n")
+	}
+	if fd.Type.Results != nil { // named results of Next: (f *File, err error)
+		for _, r := range fd.Type.Results.List {
+			for _, nm := range r.Names {
+				switch typeName(r.Type) {
+				case "File":
+					tarfsRename(fd, nm, "f")
+				case "error":
+					tarfsRename(fd, nm, "err")
+				}
+			}
+		}
+	}
+	isLit := func(e ast.Expr, typ string) bool {
+		if u, ok := e.(*ast.UnaryExpr); ok && u.Op == token.AND {
+			e = u.X
+		}
+		lit, ok := e.(*ast.CompositeLit)
+		return ok && typeName(lit.Type) == typ
+	}
+	ast.Inspect(fd.Body, func(n ast.Node) bool {
+		switch t := n.(type) {
+		case *ast.AssignStmt:
+			if len(t.Rhs) != 1 || len(t.Lhs) == 0 {
+				return true
+			}
+			id, ok := t.Lhs[0].(*ast.Ident)
+			if !ok {
+				return true
+			}
+			switch {
+			case isLit(t.Rhs[0], "gnutar.Header"):
+				tarfsRename(fd, id, "hdr")
+			case isLit(t.Rhs[0], "File"):
+				tarfsRename(fd, id, "f")
+			default:
+				if call, ok := t.Rhs[0].(*ast.CallExpr); ok {
+					if sel, ok := call.Fun.(*ast.SelectorExpr); ok {
+						switch {
+						case sel.Sel.Name == "FileInfo" && len(call.Args) == 0:
+							tarfsRename(fd, id, "info")
+						case sel.Sel.Name == "Next" && len(call.Args) == 0 && len(t.Lhs) == 2:
+							tarfsRename(fd, id, "h")
+							if e, ok := t.Lhs[1].(*ast.Ident); ok {
+								tarfsRename(fd, e, "err")
+							}
+						}
+					}
+				}
+			}
+		case *ast.DeclStmt: // `var typ byte = gnutar.TypeBlock`
+			if gd, ok := t.Decl.(*ast.GenDecl); ok && gd.Tok == token.VAR {
+				for _, sp := range gd.Specs {
+					vs := sp.(*ast.ValueSpec)
+					if len(vs.Names) == 1 && exprString(vs.Type) == "byte" {
+						tarfsRename(fd, vs.Names[0], "typ")
+					}
+				}
+			}
+		}
+		return true
+	})
+}
+
+// the first composite literal of the named type in a function body
+func tarfsFindLit(fd *ast.FuncDecl, typ string) *ast.CompositeLit {
+	var found *ast.CompositeLit
+	if fd == nil || fd.Body == nil {
+		return nil
+	}
+	walk(fd.Body, func(n ast.Node) bool {
+		if lit, ok := n.(*ast.CompositeLit); ok && found == nil && typeName(lit.Type) == typ {
+			found = lit
+		}
+		return found == nil
+	})
+	return found
+}
+
+// the (field, expression) pairs of a literal; a local of the function that is defined exactly once by `x := expr`
+// and has no fixed role is replaced by its definition
+func tarfsPairs(fd *ast.FuncDecl, lit *ast.CompositeLit) [][2]string {
+	count := map[string]int{}
+	defs := map[string]string{}
+	walk(fd.Body, func(n ast.Node) bool {
+		switch t := n.(type) {
+		case *ast.AssignStmt:
+			for i, l := range t.Lhs {
+				if id, ok := l.(*ast.Ident); ok {
+					count[id.Name]++
+					if t.Tok == token.DEFINE && len(t.Lhs) == len(t.Rhs) {
+						defs[id.Name] = exprString(t.Rhs[i])
+					}
+				}
+			}
+		case *ast.IncDecStmt:
+			if id, ok := t.X.(*ast.Ident); ok {
+				count[id.Name] += 2
+			}
+		}
+		return true
+	})
+	role := map[string]bool{"fs": true, "n": true, "hdr": true, "h": true, "info": true, "f": true, "typ": true, "err": true}
+	var subst func(e ast.Expr, depth int) string
+	subst = func(e ast.Expr, depth int) string {
+		if id, ok := e.(*ast.Ident); ok && depth < 4 && !role[id.Name] && count[id.Name] == 1 {
+			if d, ok := defs[id.Name]; ok {
+				return d
+			}
+		}
+		return exprString(e)
+	}
+	var out [][2]string
+	for _, el := range lit.Elts {
+		if kv, ok := el.(*ast.KeyValueExpr); ok {
+			out = append(out, [2]string{exprString(kv.Key), subst(kv.Value, 0)})
+		} else {
+			out = append(out, [2]string{"", subst(el, 0)})
+		}
+	}
+	return out
+}
+
+// what a Create* method does with the archive/tar writer and with the header after the literal
+func tarfsWriterUse(fd *ast.FuncDecl) (calls []string, touched bool) {
+	walk(fd.Body, func(n ast.Node) bool {
+		switch t := n.(type) {
+		case *ast.CallExpr:
+			s := exprString(t)
+			usesW := strings.Contains(s, "fs.w")
+			usesHdr := false
+			for _, a := range t.Args {
+				if strings.Contains(exprString(a), "hdr") {
+					usesHdr = true
+				}
+			}
+			if usesW {
+				calls = append(calls, s)
+			}
+			if usesHdr && exprString(t.Fun) != "fs.w.WriteHeader" {
+				touched = true
+			}
+		case *ast.AssignStmt:
+			for _, l := range t.Lhs {
+				ls := exprString(l)
+				if strings.HasPrefix(ls, "hdr.") || strings.HasPrefix(ls, "*hdr") || strings.HasPrefix(ls, "(*hdr)") {
+					touched = true
+				}
+				if ls == "hdr" && t.Tok != token.DEFINE {
+					touched = true
+				}
+			}
+		case *ast.IncDecStmt:
+			if strings.HasPrefix(exprString(t.X), "hdr.") {
+				touched = true
+			}
+		}
+		return true
+	})
+	return calls, touched
+}
+
+// every statement that gives the named variable a value, prefixed by the conditions it stands under
+func tarfsAssignsTo(fd *ast.FuncDecl, name string) []string {
+	var out []string
+	var visit func(st ast.Stmt, prefix string)
+	visit = func(st ast.Stmt, prefix string) {
+		switch t := st.(type) {
+		case *ast.DeclStmt:
+			if gd, ok := t.Decl.(*ast.GenDecl); ok && gd.Tok == token.VAR {
+				for _, sp := range gd.Specs {
+					vs := sp.(*ast.ValueSpec)
+					for i, n := range vs.Names {
+						if n.Name == name {
+							v := ""
+							if i < len(vs.Values) {
+								v = exprString(vs.Values[i])
+							}
+							out = append(out, prefix+name+"="+v)
+						}
+					}
+				}
+			}
+		case *ast.AssignStmt:
+			for i, l := range t.Lhs {
+				if exprString(l) == name && len(t.Rhs) == len(t.Lhs) {
+					out = append(out, prefix+name+"="+exprString(t.Rhs[i]))
+				}
+			}
+		case *ast.IfStmt:
+			for _, s := range t.Body.List {
+				visit(s, prefix+"if "+exprString(t.Cond)+": ")
+			}
+			if t.Else != nil {
+				visit(t.Else, prefix+"if !("+exprString(t.Cond)+"): ")
+			}
+		case *ast.BlockStmt:
+			for _, s := range t.List {
+				visit(s, prefix)
+			}
+		case *ast.SwitchStmt:
+			out = append(out, prefix+"<switch>")
+		}
+	}
+	if fd != nil && fd.Body != nil {
+		for _, st := range fd.Body.List {
+			visit(st, "")
+		}
+	}
+	return out
+}
+
+// the statements of a function in source order, composite literals abbreviated, conditions as prefixes
+func tarfsStatements(fd *ast.FuncDecl) []string {
+	var out []string
+	if fd == nil || fd.Body == nil {
+		return out
+	}
+	var visit func(st ast.Stmt, prefix string)
+	visit = func(st ast.Stmt, prefix string) {
+		switch t := st.(type) {
+		case *ast.DeclStmt:
+			if gd, ok := t.Decl.(*ast.GenDecl); ok && gd.Tok == token.VAR {
+				for _, sp := range gd.Specs {
+					vs := sp.(*ast.ValueSpec)
+					for i, n := range vs.Names {
+						v := ""
+						if i < len(vs.Values) {
+							v = exprString(vs.Values[i])
+						}
+						out = append(out, prefix+"var "+n.Name+" "+exprString(vs.Type)+"="+v)
+					}
+				}
+			}
+		case *ast.AssignStmt:
+			if len(t.Rhs) == 1 && len(t.Lhs) > 1 { // `h, err := call()`
+				ls := make([]string, len(t.Lhs))
+				for i, l := range t.Lhs {
+					ls[i] = exprString(l)
+				}
+				out = append(out, prefix+strings.Join(ls, ",")+"="+exprString(t.Rhs[0]))
+				break
+			}
+			for i, l := range t.Lhs {
+				r := ""
+				if len(t.Rhs) == len(t.Lhs) {
+					r = exprString(t.Rhs[i])
+				}
+				if cl := compositeOf(t.Rhs, i); cl != "" {
+					r = cl
+				}
+				out = append(out, prefix+exprString(l)+"="+r) // `:=` and `=` alike
+			}
+		case *ast.IfStmt:
+			if t.Init != nil {
+				visit(t.Init, prefix)
+			}
+			for _, s := range t.Body.List {
+				visit(s, prefix+"if "+exprString(t.Cond)+": ")
+			}
+			if t.Else != nil {
+				visit(t.Else, prefix+"if !("+exprString(t.Cond)+"): ")
+			}
+		case *ast.ReturnStmt:
+			rs := make([]string, len(t.Results))
+			for i, r := range t.Results {
+				rs[i] = exprString(r)
+				if cl := compositeOf(t.Results, i); cl != "" {
+					rs[i] = cl
+				}
+			}
+			out = append(out, prefix+"return "+strings.Join(rs, ","))
+		case *ast.ExprStmt:
+			out = append(out, prefix+exprString(t.X))
+		case *ast.BlockStmt:
+			for _, s := range t.List {
+				visit(s, prefix)
+			}
+		default:
+			out = append(out, prefix+fmt.Sprintf("<%T>", st))
+		}
+	}
+	for _, st := range fd.Body.List {
+		visit(st, "")
+	}
+	return out
+}
+
+// the field names of a struct type of the library, in declaration order
+func tarfsStructFields(c *ctx, name string) []string {
+	var out []string
+	for _, f := range c.files {
+		for _, d := range f.Decls {
+			gd, ok := d.(*ast.GenDecl)
+			if !ok || gd.Tok != token.TYPE {
+				continue
+			}
+			for _, sp := range gd.Specs {
+				ts := sp.(*ast.TypeSpec)
+				st, ok := ts.Type.(*ast.StructType)
+				if !ok || ts.Name.Name != name {
+					continue
+				}
+				for _, fl := range st.Fields.List {
+					for _, n := range fl.Names {
+						out = append(out, n.Name)
+					}
+				}
+			}
+		}
+	}
+	return out
+}
+
+// compositeOf abbreviates `&T{…}` / `T{…}`
 func compositeOf(rhs []ast.Expr, i int) string {
 	if i >= len(rhs) {
 		return ""
@@ -246,7 +518,6 @@ func sortedFiles(m map[string]*ast.File) []string {
 	for k := range m {
 		out = append(out, k)
 	}
-	// insertion sort: tiny
 	for i := 1; i < len(out); i++ {
 		for j := i; j > 0 && out[j] < out[j-1]; j-- {
 			out[j], out[j-1] = out[j-1], out[j]
